@@ -47,7 +47,7 @@ _MECH = {}
 
 def relevant_functions(prop, facts):
     """functions the generic, table-driven rules (T10-T13) are applied to under this property: those whose body overlaps one of the
-    property's mechanism ranges (properties.jsonl, +-6 lines for the drift caused by the fix: commits) and everything they can reach in
+    property's mechanism ranges (properties.jsonl, start line within +-3 lines, for the drift caused by the fix: commits) and everything they can reach in
     the call graph, restricted to the property's anchor files.  A change in a function that the property's mechanism cannot reach is not
     this property's business even if it sits in one of its anchor files."""
     import re
@@ -70,7 +70,7 @@ def relevant_functions(prop, facts):
         if not m:
             continue
         f, lo, hi = m.group(1), int(m.group(2)), int(m.group(3))
-        if any(f == mf and lo <= z + 6 and hi >= a - 6 for mf, a, z in _MECH.get(prop, [])):
+        if any(f == mf and a - 3 <= lo <= z + 3 for mf, a, z in _MECH.get(prop, [])):      # the function STARTS inside the range
             roots.append(d)
     out = set()
     for r in roots:
